@@ -84,6 +84,7 @@ def app_check(ctx, prop, props_v, theorems, codes, pred, extra_assume, known_cla
         stats.append(json.load(open(st)))
     res = V.run_case_files(ctx, files, names=("bad",) + tuple(e.split("=")[0] for e in (extra_evals or "").split("|") if "=" in e))
     found_input = False
+    later = []   # divergences without a falsified predicate: reported only if no failing input turns up
     for f, r in res.items():
         if r["rc"] != 0 or r.get("bad") is None:
             V.violation(ctx, "model-eval", {"kind": "model-evaluation-failed", "file": f, "detail": r["out"][-2000:]}, nofail=True)
@@ -104,12 +105,15 @@ def app_check(ctx, prop, props_v, theorems, codes, pred, extra_assume, known_cla
                                        "model_trace_also_falsifies": p_model is False, "history": slim,
                                        "how_to_replay": "vh app-replay -json <this file's history as a list> ; evaluate %s" % pred})
             elif diff is not None:
-                V.violation(ctx, "correspondence:spec-vs-app:%s" % diff[1][1],
-                            {"kind": "model-implementation-divergence", "projection_codes": codes, "first_difference": {"observation_index": diff[1][0], "component": diff[1][1]},
-                             "correspondence": "Spec.v/AppRun.v vs RigoApp on the projection of %s" % prop, "history": slim,
-                             "searched": "predicate %s holds on this implementation trace" % pred}, nofail=True)
+                later.append(("correspondence:spec-vs-app:%s" % diff[1][1],
+                              {"kind": "model-implementation-divergence", "projection_codes": codes, "first_difference": {"observation_index": diff[1][0], "component": diff[1][1]},
+                               "correspondence": "Spec.v/AppRun.v vs RigoApp on the projection of %s" % prop, "history": slim,
+                               "searched": "predicate %s holds on every implementation trace of this run that differs from the model" % pred}))
             else:
-                V.violation(ctx, "model-trace-falsifies-" + pred, {"kind": "model-trace-falsifies-predicate", "predicate": pred, "history": slim}, nofail=True)
+                later.append(("model-trace-falsifies-" + pred, {"kind": "model-trace-falsifies-predicate", "predicate": pred, "history": slim}))
+    if not found_input:
+        for key, obj in later:
+            V.violation(ctx, key, obj, nofail=True)
     ctx.app_results = res
     proof_failure_verdict(ctx, found_input)
     agg = {}
